@@ -8,7 +8,8 @@ Case types are the trees of harness/props/c31.py (`['array', T]`, `['struct', [[
     ['call', [alleles], phased]
     ['locus', contig, position]
     ['iv', start, end, includes_start, includes_end]
-    ['arr', [v…]]  ['set', [v…]]  ['dict', [[k, v]…]]  ['tup', [v…]]  ['st', [v… in field order]]
+    ['arr', [v…]]  ['set', [v…]]  ['dict', [[k, v]…]]  ['tup', [v…]]  ['st', [v… in the TYPE's field order] (, [insertion order of the
+    Mapping that is built: a permutation of the field indices], 'Struct' | 'dict')]
     ['nd', [dims…], [v… in C (row-major) order], 'C' | 'F' (, numpy dtype name)]   (memory order — and, optionally, a numpy dtype
                                            other than the element type's own — of the numpy array that is built)
 """
@@ -48,7 +49,7 @@ FLOATS32 = [0.0, -0.0, 1.0, -1.5, f32round(0.1), 1.401298464324817e-45, 3.402823
 
 
 PY_ATTR_NAMES = ['values', 'items', 'keys', 'get', 'drop', 'select', 'annotate', '_fields', '_get_field', '__class__', '__dict__',
-                 '__len__', '__init__', '__getitem__', '__hash__', 'd', 'position', 'end']   # not 'self': hl.Struct(self=…) is a TypeError
+                 '__len__', '__init__', '__getitem__', '__hash__', 'd', 'position', 'end', 'self', 'kwargs', 'fields', '__original_func']
 
 
 # numpy dtypes, other than the element type's own, whose arrays the encoder accepts for a numeric element type
@@ -155,7 +156,17 @@ def gen_value(rng, t, p_missing=0.15, top=True, allow_missing=True):
                 out.append([kk, gen_value(rng, t[2], p_missing, False)])
         return ['dict', out]
     if k == 'struct':
-        return ['st', [gen_value(rng, ft, p_missing, False) for _, ft in t[1]]]
+        vals = [gen_value(rng, ft, p_missing, False) for _, ft in t[1]]
+        if len(vals) >= 2 and rng.random() < 0.4:
+            # the same struct value held by a Mapping that lists its fields in ANOTHER order, as hl.Struct or as a plain dict (both
+            # pass the type's typecheck): fields are looked up by NAME, the order of the mapping is not an observable
+            perm = list(range(len(vals)))
+            while perm == list(range(len(vals))):
+                rng.shuffle(perm)
+            return ['st', vals, perm, rng.choice(['Struct', 'dict'])]
+        if vals and rng.random() < 0.1:
+            return ['st', vals, list(range(len(vals))), 'dict']
+        return ['st', vals]
     if k == 'tuple':
         return ['tup', [gen_value(rng, et, p_missing, False) for et in t[1]]]
     if k == 'ndarray':
@@ -302,8 +313,9 @@ class HailValues:
             d = {self.to_py(t[1], a, True): self.to_py(t[2], b, frozen) for a, b in v[1]}
             return self.frozendict(d) if frozen else d
         if k == 'struct':
-            fields = {n: self.to_py(ft, x, frozen) for (n, ft), x in zip(t[1], v[1])}
-            if 'self' in fields:      # hl.Struct(self=…) is a TypeError; a struct value may be any Mapping
+            order = v[2] if len(v) > 2 else range(len(v[1]))
+            fields = {t[1][i][0]: self.to_py(t[1][i][1], v[1][i], frozen) for i in order}
+            if len(v) > 3 and v[3] == 'dict':
                 return self.frozendict(fields) if frozen else fields
             return self.Struct(**fields)
         if k == 'tuple':
@@ -375,7 +387,7 @@ class HailValues:
         if k == 'struct':
             if not hasattr(x, 'keys'):
                 raise TypeError(f'Struct expected, got {type(x).__name__}')
-            if list(x.keys()) != [n for n, _ in t[1]]:
+            if sorted(x.keys()) != sorted(n for n, _ in t[1]):      # the order of a Mapping is not an observable (Struct.__eq__)
                 raise TypeError(f'struct fields {list(x.keys())}')
             return 'st(' + ','.join(self.canon_py(ft, x[n]) for n, ft in t[1]) + ')'
         if k == 'tuple':
